@@ -1024,17 +1024,28 @@ static int op_dynconf(int argc, char **argv, FILE *out) {
     struct realm *realm, *sub;
     struct clsrvconf *conf;
     const struct protodefs *saved_tcp = protodefs[RAD_TCP], *saved_dtls = protodefs[RAD_DTLS];
-    int ttype = RAD_TCP, trc = 0, tri = 0, have_t = 0;
+    int ttype = RAD_TCP, trc = 0, tri = 0, have_t = 0, tcn = 0, tnc = 1, have_c = 0, tsec_len = 0;
     /* the fourth argument (the secret the printed block sets, or ".") is for the model's side only; so is a sixth (what the block
        says about type and retries); the fifth, T<type>,<RetryCount>,<RetryInterval>, describes the template block (255 = not set) */
     if (argc != 4 && argc != 6)
         return 0;
     if (argc == 6) {
-        if (sscanf(argv[4], "T%d,%d,%d", &ttype, &trc, &tri) != 3 || (ttype != RAD_TCP && ttype != RAD_DTLS))
+        int nf = sscanf(argv[4], "T%d,%d,%d,%d,%d", &ttype, &trc, &tri, &tcn, &tnc);
+        if ((nf != 3 && nf != 5) || (ttype != RAD_TCP && ttype != RAD_DTLS))
             return 0;
         have_t = 1;
+        have_c = nf == 5; /* the template block's CertificateCNCheck / CertificateNameCheck */
     }
-    tsec = hxstr(argv[0]);
+    {
+        /* the template block's secret as the configuration reader leaves it: decoded octets (NULs included) and their number */
+        uint8_t *b = hx(argv[0], &tsec_len);
+        if (!b || tsec_len < 1)
+            return 0;
+        tsec = malloc(tsec_len + 1);
+        memcpy(tsec, b, tsec_len);
+        tsec[tsec_len] = 0;
+        free(b);
+    }
     id = hxstr(argv[1]);
     outp = hxstr(argv[2]);
     if (!tsec || !id || !outp)
@@ -1057,12 +1068,16 @@ static int op_dynconf(int argc, char **argv, FILE *out) {
     conf = dynconf("dyn", stringcopy("/bin/lookup", 0));
     free(conf->secret);
     conf->secret = (uint8_t *)tsec;
-    conf->secret_len = unhex((char *)conf->secret, 1);
+    conf->secret_len = tsec_len;
     if (have_t) {
         conf->type = ttype;
         conf->pdef = protodefs[ttype];
         conf->retrycount = trc;
         conf->retryinterval = tri;
+        if (have_c) {
+            conf->certcncheck = tcn;
+            conf->certnamecheck = tnc;
+        }
         if (ttype == RAD_DTLS) {
             conf->pskkey = (uint8_t *)stringcopy("0123456789abcdef", 0);
             conf->pskkeylen = 16;
@@ -1084,7 +1099,7 @@ static int op_dynconf(int argc, char **argv, FILE *out) {
         uint8_t *buf = NULL, auth[16] = {0};
         int n;
         fputs("secret:", out);
-        puthex(out, c->secret, c->secret ? strlen((char *)c->secret) : 0);
+        puthex(out, c->secret, c->secret ? c->secret_len : 0); /* all the octets the code will use as the secret */
         fprintf(out, " len=%d", c->secret_len);
         m = radmsg_init(RAD_Accounting_Request, 1, auth);
         n = m ? radmsg2buf(m, c->secret, c->secret_len, &buf) : -1;
@@ -1097,10 +1112,101 @@ static int op_dynconf(int argc, char **argv, FILE *out) {
         radmsg_free(m);
         if (have_t) /* what the retry machinery of the discovered server will work with */
             fprintf(out, " type=%d rc=%d ri=%d", c->type, c->retrycount, c->retryinterval);
+        if (have_c) /* which certificate name checks the discovered server is subject to */
+            fprintf(out, " cn=%d nc=%d", c->certcncheck, c->certnamecheck);
     }
     realms = saved;
     protodefs[RAD_TCP] = saved_tcp;
     protodefs[RAD_DTLS] = saved_dtls;
+    free(h_transcript_take());
+    free(id);
+    free(outp);
+    return 1;
+}
+
+/* dynroute <hex id> <acc1> <acc2> <hex lookup-command output>: a realm "*" whose authentication server AND accounting server are both
+   discovered by a lookup command (which succeeds: it prints the given server block; connecting "succeeds" too). The real findserver()
+   is asked twice, for an Access-Request (acc 0) or an Accounting-Request (acc 1) each time: the first call creates the sub-realm and
+   discovers both servers, the second finds them connected. Printed per call: which of the realm's two lists the returned server
+   belongs to. */
+static int dynroute_connect(struct server *srv, int timeout, int reconnect) {
+    (void)timeout;
+    (void)reconnect;
+    pthread_mutex_lock(&srv->lock);
+    srv->state = RSP_SERVER_STATE_CONNECTED;
+    pthread_mutex_unlock(&srv->lock);
+    return 1;
+}
+static void *dynroute_reader(void *arg) {
+    (void)arg;
+    for (;;)
+        h_thread_park_forever();
+    return NULL;
+}
+static const char *dynroute_which(struct realm *r, struct server *srv) {
+    struct list_node *n;
+    if (!r || !srv)
+        return "none";
+    for (n = list_first(r->accsrvconfs); n; n = list_next(n))
+        if (((struct clsrvconf *)n->data)->servers == srv)
+            return "acct";
+    for (n = list_first(r->srvconfs); n; n = list_next(n))
+        if (((struct clsrvconf *)n->data)->servers == srv)
+            return "auth";
+    return "other";
+}
+static int op_dynroute(int argc, char **argv, FILE *out) {
+    static struct protodefs pd;
+    char *id, *outp;
+    struct list *rl, *saved = realms;
+    struct realm *realm, *found;
+    struct clsrvconf *auth, *acct;
+    const struct protodefs *saved_tcp = protodefs[RAD_TCP];
+    struct server *srv;
+    struct tlv *un;
+    int k;
+    if (argc != 4)
+        return 0;
+    id = hxstr(argv[0]);
+    outp = hxstr(argv[3]);
+    if (!id || !outp)
+        return 0;
+    h_threads_reset();
+    h_execlog_reset();
+    pd = *tcpinit(RAD_TCP);
+    pd.connecter = dynroute_connect;
+    pd.clientconnreader = dynroute_reader;
+    protodefs[RAD_TCP] = &pd;
+    rl = list_create();
+    {
+        char star[] = "*";
+        realm = addrealm(rl, star, NULL, NULL, NULL, 0, 0);
+    }
+    auth = dynconf("dynauth", stringcopy("/bin/lookup", 0));
+    acct = dynconf("dynacct", stringcopy("/bin/lookup", 0));
+    realm->srvconfs = list_create();
+    list_push(realm->srvconfs, auth);
+    newrealmref(realm);
+    realm->accsrvconfs = list_create();
+    list_push(realm->accsrvconfs, acct);
+    newrealmref(realm);
+    realms = rl;
+    h_exec_status = 0;
+    h_exec_output = outp;
+    for (k = 0; k < 2; k++) {
+        found = NULL;
+        un = maketlv(RAD_Attr_User_Name, strlen(id), id);
+        srv = findserver(&found, un, atoi(argv[1 + k]));
+        freetlv(un);
+        fprintf(out, "%sp%d %s from:%s", k ? " | " : "", k + 1, !found ? "none" : found->parent ? "sub" : "top", dynroute_which(found, srv));
+        if (found) {
+            pthread_mutex_unlock(&found->mutex);
+            freerealm(found);
+        }
+    }
+    h_exec_output = NULL;
+    realms = saved;
+    protodefs[RAD_TCP] = saved_tcp;
     free(h_transcript_take());
     free(id);
     free(outp);
@@ -1622,6 +1728,7 @@ int h_rsp_op(const char *op, int argc, char **argv, FILE *out) {
     if (!strcmp(op, "reset")) return op_reset(argc, argv, out);
     if (!strcmp(op, "srvconn")) return op_srvconn(argc, argv, out);
     if (!strcmp(op, "dyndns")) return op_dyndns(argc, argv, out);
+    if (!strcmp(op, "dynroute")) return op_dynroute(argc, argv, out);
     if (!strcmp(op, "rmserver")) return op_rmserver(argc, argv, out);
     if (!strcmp(op, "srvstate")) return op_srvstate(argc, argv, out);
     if (!strcmp(op, "pop")) return op_pop(argc, argv, out);
